@@ -718,7 +718,13 @@ aiff_ima_seek (SF_PRIVATE *psf, int mode, sf_count_t offset)
 		} ;
 
 	if (offset == 0)
-	{	psf_fseek (psf, psf->dataoffset, SEEK_SET) ;
+	{	/* A write handle has no decoder (same test as in wavlike_ima_seek). */
+		if (!pima->decode_block)
+		{	psf->error = SFE_BAD_SEEK ;
+			return PSF_SEEK_ERROR ;
+			} ;
+
+		psf_fseek (psf, psf->dataoffset, SEEK_SET) ;
 		pima->blockcount = 0 ;
 		pima->decode_block (psf, pima) ;
 		pima->samplecount = 0 ;
